@@ -647,4 +647,746 @@ theorem rewriteExecute_no_panic (fo : FloatOps) (g : Nat → Bytes → Out Bytes
         | err => simp
         | ok p' => simp
 
+/-! ## F. the whole parameter block: `GetBindParameters` on the specification encoding -/
+
+/-- the byte with bit `j` set iff `c j` -/
+def byteOf (c : Nat → Bool) : Nat :=
+  (List.range 8).foldl (fun acc bit => if c bit then acc + 2^bit else acc) 0
+
+theorem byteOf_eq (c : Nat → Bool) :
+    byteOf c = (if c 0 then 1 else 0) + (if c 1 then 2 else 0) + (if c 2 then 4 else 0) + (if c 3 then 8 else 0) +
+      (if c 4 then 16 else 0) + (if c 5 then 32 else 0) + (if c 6 then 64 else 0) + (if c 7 then 128 else 0) := by
+  unfold byteOf
+  simp only [List.range, List.range.loop, List.foldl]
+  cases c 0 <;> cases c 1 <;> cases c 2 <;> cases c 3 <;> cases c 4 <;> cases c 5 <;> cases c 6 <;> cases c 7 <;> rfl
+
+theorem byteOf_lt (c : Nat → Bool) : byteOf c < 256 := by
+  rw [byteOf_eq]
+  cases c 0 <;> cases c 1 <;> cases c 2 <;> cases c 3 <;> cases c 4 <;> cases c 5 <;> cases c 6 <;> cases c 7 <;> decide
+
+theorem byteOf_bit (c : Nat → Bool) (k : Nat) (hk : k < 8) : (byteOf c >>> k) % 2 = if c k then 1 else 0 := by
+  rw [byteOf_eq]
+  have : k = 0 ∨ k = 1 ∨ k = 2 ∨ k = 3 ∨ k = 4 ∨ k = 5 ∨ k = 6 ∨ k = 7 := by omega
+  rcases this with rfl | rfl | rfl | rfl | rfl | rfl | rfl | rfl <;>
+    cases c 0 <;> cases c 1 <;> cases c 2 <;> cases c 3 <;> cases c 4 <;> cases c 5 <;> cases c 6 <;> cases c 7 <;> decide
+
+theorem execBitmap_length (vals : List (Option Bytes)) : (execBitmap vals).length = (vals.length + 7) / 8 := by
+  simp [execBitmap]
+
+theorem execBitmap_get (vals : List (Option Bytes)) (byte : Nat) (h : byte < (vals.length + 7) / 8) :
+    (execBitmap vals)[byte]? = some (UInt8.ofNat (byteOf fun bit => decide (vals[byte * 8 + bit]? = some none))) := by
+  unfold execBitmap
+  rw [List.getElem?_map, List.getElem?_range h]
+  simp [byteOf]
+
+/-- reading bit `i` of the NULL bitmap the way `GetBindParameters` does gives "parameter `i` is NULL" -/
+theorem execBitmap_bit (vals : List (Option Bytes)) (i : Nat) (hi : i < vals.length) :
+    ∃ b, goIndex (execBitmap vals) (i / 8) = .ok b ∧
+      (decide ((b.toNat >>> (i % 8)) % 2 = 1) = decide (vals[i]? = some none)) := by
+  have hb : i / 8 < (vals.length + 7) / 8 := by omega
+  have hg := execBitmap_get vals (i / 8) hb
+  have hlt : i / 8 < (execBitmap vals).length := by rw [execBitmap_length]; exact hb
+  refine ⟨UInt8.ofNat (byteOf fun bit => decide (vals[i / 8 * 8 + bit]? = some none)), ?_, ?_⟩
+  · unfold goIndex
+    rw [hg]
+  · have hlt256 := byteOf_lt (fun bit => decide (vals[i / 8 * 8 + bit]? = some none))
+    have htn : (UInt8.ofNat (byteOf fun bit => decide (vals[i / 8 * 8 + bit]? = some none))).toNat =
+        byteOf fun bit => decide (vals[i / 8 * 8 + bit]? = some none) := by
+      simp [UInt8.toNat_ofNat']
+      omega
+    rw [htn, byteOf_bit _ (i % 8) (by omega)]
+    have hidx : i / 8 * 8 + i % 8 = i := by omega
+    simp only [hidx]
+    cases hd : decide (vals[i]? = some none) <;> simp
+
+/-! ### one value -/
+
+/-- a wire value is well-formed for its type: fixed-width numerics have their storage width, everything else fits a
+length-encoded string -/
+def WireOk (t : Nat) (v : Bytes) : Prop :=
+  match storageBytes t with
+  | some sb => v.length = sb
+  | none => v.length < 2^64
+
+/-- the value Acra holds (as text) for a parameter of type `t` whose wire value is `v` (`none` = NULL) -/
+def boundOf (fo : FloatOps) (t : Nat) (v : Option Bytes) : BoundValue :=
+  match v with
+  | none => ⟨t, none⟩
+  | some v =>
+    match storageBytes t with
+    | none => ⟨t, some v⟩
+    | some _ =>
+      match decodeKind t with
+      | some (.int w) => ⟨t, some (fmtInt (toSigned (8 * w) (leVal v)))⟩
+      | some (.float w) => ⟨t, some (fo.fmt w v)⟩
+      | _ => ⟨t, none⟩
+
+/-- `NewMysqlBoundValue` on the wire form of a well-formed value followed by anything: the text value of the
+specification, consuming exactly the bytes of the value -/
+theorem newBoundValue_encodeParamVal (fo : FloatOps) (t : Nat) (v rest : Bytes) (h : WireOk t v) :
+    newBoundValue fo (encodeParamVal t v ++ rest) t = .ok (boundOf fo t (some v), (encodeParamVal t v).length) := by
+  unfold WireOk at h
+  unfold encodeParamVal boundOf
+  cases hs : storageBytes t with
+  | none =>
+    rw [hs] at h
+    simp only
+    exact (value_roundtrip_str fo t v v rest hs h).1
+  | some sb =>
+    rw [hs] at h
+    simp only
+    rcases tables_agree t sb hs with ⟨hd, _⟩ | ⟨hd, _⟩ | ⟨hd, _, h0⟩
+    · unfold newBoundValue
+      simp only [hs, hd]
+      rw [if_neg (by simp only [List.length_append]; omega), List.take_left' h, h]
+      rfl
+    · unfold newBoundValue
+      simp only [hs, hd]
+      rw [if_neg (by simp only [List.length_append]; omega), List.take_left' h, h]
+      rfl
+    · unfold newBoundValue
+      simp only [hs, hd]
+      subst h0
+      rw [h]
+      rfl
+
+/-! ### the type list -/
+
+def typeBytes (types : List (Nat × Nat)) : Bytes := types.flatMap (fun tf => [UInt8.ofNat tf.1, UInt8.ofNat tf.2])
+
+theorem typeBytes_length (types : List (Nat × Nat)) : (typeBytes types).length = 2 * types.length := by
+  induction types with
+  | nil => rfl
+  | cons x xs ih => simp [typeBytes, List.flatMap_cons] at ih ⊢; omega
+
+theorem readTypes_typeBytes (pre post : Bytes) (types : List (Nat × Nat)) (hty : ∀ tf ∈ types, tf.1 < 256) :
+    readTypes (pre ++ typeBytes types ++ post) types.length pre.length = .ok (types.map (·.1)) := by
+  induction types generalizing pre with
+  | nil => rfl
+  | cons x xs ih =>
+    obtain ⟨t, f⟩ := x
+    have ht : t < 256 := hty (t, f) List.mem_cons_self
+    have e : pre ++ typeBytes ((t, f) :: xs) ++ post = (pre ++ [UInt8.ofNat t, UInt8.ofNat f]) ++ typeBytes xs ++ post := by
+      simp [typeBytes, List.flatMap_cons, List.append_assoc]
+    have hidx : goIndex (pre ++ typeBytes ((t, f) :: xs) ++ post) pre.length = .ok (UInt8.ofNat t) := by
+      unfold goIndex
+      simp [typeBytes, List.flatMap_cons, List.append_assoc]
+    have hrec := ih (pre ++ [UInt8.ofNat t, UInt8.ofNat f]) (fun tf h => hty tf (List.mem_cons_of_mem _ h))
+    rw [← e] at hrec
+    have hlen : (pre ++ [UInt8.ofNat t, UInt8.ofNat f]).length = pre.length + 2 := by simp
+    rw [hlen] at hrec
+    rw [List.length_cons]
+    unfold readTypes
+    rw [hidx, Out.bind_ok, hrec, Out.bind_ok]
+    simp [UInt8.toNat_ofNat']
+    omega
+
+/-! ### the value loop -/
+
+/-- all parameters of an execute as Acra holds them -/
+def boundAll (fo : FloatOps) : List (Nat × Nat) → List (Option Bytes) → List BoundValue
+  | tf :: ts, v :: vs => boundOf fo tf.1 v :: boundAll fo ts vs
+  | _, _ => []
+
+/-- **the value loop of `GetBindParameters` reads what the specification encoder writes**: on the value block of
+`types`/`vals` (the parameters from index `k` on) placed at `pos` behind any bytes, with the NULL bitmap of the whole
+parameter list, it returns the specification's values – NULL exactly where the bitmap says so, every other value
+consumed with exactly its wire length -/
+theorem readVals_encode (fo : FloatOps) (allVals : List (Option Bytes)) (post : Bytes)
+    (types : List (Nat × Nat)) (vals : List (Option Bytes)) (pre : Bytes) (k : Nat)
+    (hsuf : allVals.drop k = vals) (hl : types.length = vals.length)
+    (hw : ∀ (j t f : Nat) (v : Bytes), types[j]? = some (t, f) → vals[j]? = some (some v) → WireOk t v) :
+    readVals fo (pre ++ encodeParamVals types vals ++ post) (execBitmap allVals) (types.map (·.1)) k pre.length =
+      .ok (boundAll fo types vals) := by
+  induction vals generalizing types pre k with
+  | nil =>
+    have : types = [] := List.eq_nil_of_length_eq_zero (by simpa using hl)
+    subst this
+    rfl
+  | cons v vs ih =>
+    match types, hl with
+    | (t, f) :: ts, hl =>
+      have hl' : ts.length = vs.length := by simpa using hl
+      have hk : k < allVals.length := by
+        rcases Nat.lt_or_ge k allVals.length with h | h
+        · exact h
+        · rw [List.drop_eq_nil_of_le h] at hsuf; cases hsuf
+      have hget : allVals[k]? = some v := by
+        have := congrArg (fun l => l[0]?) hsuf
+        simpa [List.getElem?_drop] using this
+      have hsuf' : allVals.drop (k + 1) = vs := by
+        have := congrArg (List.drop 1) hsuf
+        simpa [List.drop_drop, Nat.add_comm] using this
+      obtain ⟨b, hb, hbit⟩ := execBitmap_bit allVals k hk
+      have hblen : (execBitmap allVals).length > 0 := by
+        rw [execBitmap_length]; omega
+      have hw' : ∀ (j t' f' : Nat) (x : Bytes), ts[j]? = some (t', f') → vs[j]? = some (some x) → WireOk t' x :=
+        fun j t' f' x h1 h2 => hw (j + 1) t' f' x (by simpa using h1) (by simpa using h2)
+      simp only [List.map_cons]
+      unfold readVals
+      rw [if_pos hblen, hb]
+      simp only [Out.bind_ok, Out.pure_eq]
+      rw [hbit, hget]
+      cases v with
+      | none =>
+        simp only [decide_true, if_true]
+        have e : encodeParamVals ((t, f) :: ts) (none :: vs) = encodeParamVals ts vs := rfl
+        rw [e, ih ts pre (k + 1) hsuf' hl' hw']
+        rfl
+      | some x =>
+        have hne : decide ((some (some x) : Option (Option Bytes)) = some none) = false := by simp
+        rw [hne]
+        simp only [Bool.false_eq_true, if_false]
+        have hwx : WireOk t x := hw 0 t f x rfl rfl
+        have e : pre ++ encodeParamVals ((t, f) :: ts) (some x :: vs) ++ post =
+            pre ++ (encodeParamVal t x ++ (encodeParamVals ts vs ++ post)) := by
+          simp [encodeParamVals, List.append_assoc]
+        have e2 : pre ++ encodeParamVals ((t, f) :: ts) (some x :: vs) ++ post =
+            (pre ++ encodeParamVal t x) ++ encodeParamVals ts vs ++ post := by
+          simp [encodeParamVals, List.append_assoc]
+        have hfrom : goSliceFrom (pre ++ encodeParamVals ((t, f) :: ts) (some x :: vs) ++ post) pre.length =
+            .ok (encodeParamVal t x ++ (encodeParamVals ts vs ++ post)) := by
+          rw [e]; exact goSliceFrom_append pre _
+        rw [hfrom, Out.bind_ok, newBoundValue_encodeParamVal fo t x _ hwx, Out.bind_ok]
+        simp only
+        have hrec := ih ts (pre ++ encodeParamVal t x) (k + 1) hsuf' hl' hw'
+        rw [← e2, List.length_append] at hrec
+        rw [hrec]
+        rfl
+
+/-! ### the whole parameter block -/
+
+/-- **`GetBindParameters` reads what the specification encoder writes**: on a COM_STMT_EXECUTE payload built by
+`encodeExecute` (10-byte head, NULL bitmap, new-params-bound flag 1, `n ≥ 1` (type, flag) pairs, the wire values of the
+non-NULL parameters) it returns the specification's list of values. -/
+theorem getBindParameters_encodeExecute (fo : FloatOps) (head : Bytes) (types : List (Nat × Nat))
+    (vals : List (Option Bytes)) (hh : head.length = 10) (hl : types.length = vals.length) (hn : 0 < vals.length)
+    (hty : ∀ tf ∈ types, tf.1 < 256)
+    (hw : ∀ (j t f : Nat) (v : Bytes), types[j]? = some (t, f) → vals[j]? = some (some v) → WireOk t v) :
+    getBindParameters fo (encodeExecute head types vals) vals.length = .ok (some (boundAll fo types vals)) := by
+  have hbl := execBitmap_length vals
+  have htl := typeBytes_length types
+  have e0 : encodeExecute head types vals =
+      head ++ execBitmap vals ++ [1] ++ typeBytes types ++ encodeParamVals types vals := rfl
+  have e1 : encodeExecute head types vals =
+      head ++ execBitmap vals ++ ([1] ++ typeBytes types ++ encodeParamVals types vals) := by
+    rw [e0]; simp [List.append_assoc]
+  have e2 : encodeExecute head types vals =
+      (head ++ execBitmap vals ++ [1]) ++ typeBytes types ++ encodeParamVals types vals := e0
+  have e3 : encodeExecute head types vals =
+      (head ++ execBitmap vals ++ [1] ++ typeBytes types) ++ encodeParamVals types vals ++ [] := by
+    rw [e0]; simp
+  have hlen : (encodeExecute head types vals).length =
+      10 + (vals.length + 7) / 8 + 1 + 2 * types.length + (encodeParamVals types vals).length := by
+    rw [e0]; simp only [List.length_append, hh, hbl, htl, List.length_cons, List.length_nil]
+  have hbm : goSlice (encodeExecute head types vals) hdrLen (hdrLen + (vals.length + 7) / 8) = .ok (execBitmap vals) := by
+    rw [e1, hdrLen_eq]
+    have := goSlice_append_mid head (execBitmap vals) ([1] ++ typeBytes types ++ encodeParamVals types vals)
+    rw [hh, hbl] at this
+    exact this
+  have hflag : goIndex (encodeExecute head types vals) (hdrLen + (vals.length + 7) / 8) = .ok 1 := by
+    rw [e1, hdrLen_eq]
+    unfold goIndex
+    have : (head ++ execBitmap vals ++ ([1] ++ typeBytes types ++ encodeParamVals types vals))[10 + (vals.length + 7) / 8]? = some 1 := by
+      rw [List.getElem?_append_right (by simp [hh, hbl])]
+      simp [hh, hbl]
+    rw [this]
+  have hpre : (head ++ execBitmap vals ++ [1]).length = hdrLen + (vals.length + 7) / 8 + 1 := by
+    simp only [List.length_append, hh, hbl, hdrLen_eq, List.length_cons, List.length_nil]
+  have htypes : readTypes (encodeExecute head types vals) vals.length (hdrLen + (vals.length + 7) / 8 + 1) =
+      .ok (types.map (·.1)) := by
+    have := readTypes_typeBytes (head ++ execBitmap vals ++ [1]) (encodeParamVals types vals) types hty
+    rw [hpre, hl] at this
+    rw [e2]
+    exact this
+  have hpre2 : (head ++ execBitmap vals ++ [1] ++ typeBytes types).length =
+      hdrLen + (vals.length + 7) / 8 + 1 + 2 * vals.length := by
+    simp only [List.length_append, hh, hbl, htl, hdrLen_eq, hl, List.length_cons, List.length_nil]
+  have hvals : readVals fo (encodeExecute head types vals) (execBitmap vals) (types.map (·.1)) 0
+      (hdrLen + (vals.length + 7) / 8 + 1 + 2 * vals.length) = .ok (boundAll fo types vals) := by
+    have := readVals_encode fo vals [] types vals (head ++ execBitmap vals ++ [1] ++ typeBytes types) 0 rfl hl hw
+    rw [hpre2] at this
+    rw [e3]
+    exact this
+  unfold getBindParameters
+  rw [if_neg (by omega)]
+  simp only []
+  rw [if_neg (by rw [hlen, hdrLen_eq]; omega), if_pos (by omega), hbm, Out.bind_ok, hflag, Out.bind_ok]
+  rw [if_neg (by decide)]
+  rw [if_neg (by rw [hlen, hdrLen_eq, hl]; omega), htypes, Out.bind_ok, hvals]
+  rfl
+
+/-! ### write side: the values after an observer, and their re-encoding -/
+
+/-- the observer changes parameter `i` (its text value differs after `f`) -/
+def changedAt (fo : FloatOps) (f : Nat → Bytes → Bytes) (i t : Nat) (v : Option Bytes) : Bool :=
+  match (boundOf fo t v).data with
+  | some text => decide (text ≠ f i text)
+  | none => false
+
+/-- the bound values after the observer: a changed value becomes a BLOB holding the new text -/
+def outBound (fo : FloatOps) (f : Nat → Bytes → Bytes) : Nat → List (Nat × Nat) → List (Option Bytes) → List BoundValue
+  | i, tf :: ts, v :: vs =>
+    (match (boundOf fo tf.1 v).data with
+     | some text => if text = f i text then boundOf fo tf.1 v else ⟨changedType, some (f i text)⟩
+     | none => boundOf fo tf.1 v) :: outBound fo f (i + 1) ts vs
+  | _, _, _ => []
+
+/-- specification side: the (type, flag) pairs and the wire values of the rewritten execute -/
+def outTypes (fo : FloatOps) (f : Nat → Bytes → Bytes) : Nat → List (Nat × Nat) → List (Option Bytes) → List (Nat × Nat)
+  | i, tf :: ts, v :: vs => (if changedAt fo f i tf.1 v then (changedType, tf.2) else tf) :: outTypes fo f (i + 1) ts vs
+  | _, _, _ => []
+
+def outVals (fo : FloatOps) (f : Nat → Bytes → Bytes) : Nat → List (Nat × Nat) → List (Option Bytes) → List (Option Bytes)
+  | i, tf :: ts, v :: vs =>
+    (if changedAt fo f i tf.1 v then (boundOf fo tf.1 v).data.map (f i) else v) :: outVals fo f (i + 1) ts vs
+  | _, _, _ => []
+
+theorem transformVals_boundAll (fo : FloatOps) (f : Nat → Bytes → Bytes) (g : Nat → Bytes → Out Bytes)
+    (hg : ∀ i d, g i d = .ok (f i d)) (types : List (Nat × Nat)) (vals : List (Option Bytes)) (i : Nat) :
+    transformVals g (boundAll fo types vals) i = .ok (outBound fo f i types vals) := by
+  induction vals generalizing types i with
+  | nil => cases types <;> rfl
+  | cons v vs ih =>
+    match types with
+    | [] => rfl
+    | tf :: ts =>
+      simp only [boundAll, outBound]
+      unfold transformVals
+      rw [ih ts (i + 1)]
+      cases hd : (boundOf fo tf.1 v).data with
+      | none => simp
+      | some text =>
+        simp only [hd, hg, Out.bind_ok, Out.pure_eq, BoundValue.setData, Option.getD_some]
+
+/-- every FLOAT/DOUBLE value of the execute satisfies strconv's shortest-text round trip (all finite values and the
+infinities do; NaN payloads are canonicalised) -/
+def FloatLaw (fo : FloatOps) (types : List (Nat × Nat)) (vals : List (Option Bytes)) : Prop :=
+  ∀ (j t fl w : Nat) (v : Bytes), types[j]? = some (t, fl) → vals[j]? = some (some v) →
+    decodeKind t = some (.float w) → fo.parse w (fo.fmt w v) = some v
+
+theorem encode_changed (fo : FloatOps) (d : Bytes) :
+    (⟨changedType, some d⟩ : BoundValue).encode fo = .ok (putLengthEncodedString (some d)) := by
+  simp [BoundValue.encode, storageBytes_changedType]
+
+theorem encodeParamVal_changed (d : Bytes) : encodeParamVal changedType d = putLengthEncodedString (some d) := by
+  simp [encodeParamVal, storageBytes_changedType]
+
+/-- **the value loop of `SetParameters` writes the specification encoding of the values after the observer** -/
+theorem encodeVals_outBound (fo : FloatOps) (f : Nat → Bytes → Bytes) (types : List (Nat × Nat))
+    (vals : List (Option Bytes)) (i : Nat) (hl : types.length = vals.length)
+    (hw : ∀ (j t fl : Nat) (v : Bytes), types[j]? = some (t, fl) → vals[j]? = some (some v) → WireOk t v)
+    (hlaw : FloatLaw fo types vals) :
+    encodeVals fo (outBound fo f i types vals) =
+      .ok (encodeParamVals (outTypes fo f i types vals) (outVals fo f i types vals)) := by
+  induction vals generalizing types i with
+  | nil => cases types <;> rfl
+  | cons v vs ih =>
+    match types, hl with
+    | (t, fl) :: ts, hl =>
+      have hl' : ts.length = vs.length := by simpa using hl
+      have hw' : ∀ (j t' fl' : Nat) (x : Bytes), ts[j]? = some (t', fl') → vs[j]? = some (some x) → WireOk t' x :=
+        fun j t' fl' x h1 h2 => hw (j + 1) t' fl' x (by simpa using h1) (by simpa using h2)
+      have hlaw' : FloatLaw fo ts vs :=
+        fun j t' fl' w x h1 h2 h3 => hlaw (j + 1) t' fl' w x (by simpa using h1) (by simpa using h2) h3
+      have hrec := ih ts (i + 1) hl' hw' hlaw'
+      simp only [outBound, outTypes, outVals]
+      cases v with
+      | none =>
+        have hb : boundOf fo t none = ⟨t, none⟩ := rfl
+        simp only [hb, changedAt, Bool.false_eq_true, if_false]
+        unfold encodeVals
+        simp only [hrec]
+        rfl
+      | some w =>
+        have hwx : WireOk t w := hw 0 t fl w rfl rfl
+        unfold WireOk at hwx
+        cases hs : storageBytes t with
+        | none =>
+          have hb : boundOf fo t (some w) = ⟨t, some w⟩ := by simp [boundOf, hs]
+          simp only [hb, changedAt]
+          by_cases hc : w = f i w
+          · have hdc : decide (w ≠ f i w) = false := by simp; exact hc
+            rw [if_pos hc, hdc]
+            simp only [Bool.false_eq_true, if_false]
+            unfold encodeVals
+            simp only [hrec, BoundValue.encode, hs, Out.bind_ok, Out.pure_eq]
+            simp [encodeParamVals, encodeParamVal, hs]
+          · have hdc : decide (w ≠ f i w) = true := by simp [hc]
+            rw [if_neg hc, hdc]
+            simp only [if_true, Option.map_some]
+            unfold encodeVals
+            simp only [hrec, encode_changed, Out.bind_ok, Out.pure_eq]
+            simp [encodeParamVals, encodeParamVal_changed]
+        | some sb =>
+          rw [hs] at hwx
+          rcases tables_agree t sb hs with ⟨hd, he⟩ | ⟨hd, he⟩ | ⟨hd, he, h0⟩
+          · -- integer
+            have hsb : 0 < sb := by
+              have hm := storageBytes_mem t sb hs
+              simp only [Generated.Wire.myNumericStorageBytes, List.mem_cons, Prod.mk.injEq, List.not_mem_nil, or_false] at hm
+              rcases hm with ⟨rfl, rfl⟩ | ⟨rfl, rfl⟩ | ⟨rfl, rfl⟩ | ⟨rfl, rfl⟩ | ⟨rfl, rfl⟩ | ⟨rfl, rfl⟩ | ⟨rfl, rfl⟩ | ⟨rfl, rfl⟩ | ⟨rfl, rfl⟩ <;>
+                first | decide | (exfalso; revert hd; decide)
+            have hb : boundOf fo t (some w) = ⟨t, some (fmtInt (toSigned (8 * sb) (leVal w)))⟩ := by
+              simp [boundOf, hs, hd]
+            have henc := (value_roundtrip_int fo t sb w [] hs hd he hsb hwx).2
+            simp only [hb, changedAt]
+            by_cases hc : fmtInt (toSigned (8 * sb) (leVal w)) = f i (fmtInt (toSigned (8 * sb) (leVal w)))
+            · have hdc : decide (fmtInt (toSigned (8 * sb) (leVal w)) ≠ f i (fmtInt (toSigned (8 * sb) (leVal w)))) = false := by
+                simp; exact hc
+              rw [if_pos hc, hdc]
+              simp only [Bool.false_eq_true, if_false]
+              unfold encodeVals
+              simp only [hrec, henc, Out.bind_ok, Out.pure_eq]
+              simp [encodeParamVals, encodeParamVal, hs]
+            · have hdc : decide (fmtInt (toSigned (8 * sb) (leVal w)) ≠ f i (fmtInt (toSigned (8 * sb) (leVal w)))) = true := by
+                simp [hc]
+              rw [if_neg hc, hdc]
+              simp only [if_true, Option.map_some]
+              unfold encodeVals
+              simp only [hrec, encode_changed, Out.bind_ok, Out.pure_eq]
+              simp [encodeParamVals, encodeParamVal_changed]
+          · -- float
+            have hb : boundOf fo t (some w) = ⟨t, some (fo.fmt sb w)⟩ := by simp [boundOf, hs, hd]
+            have henc := (value_roundtrip_float fo t sb w [] hs hd he hwx (hlaw 0 t fl sb w rfl rfl hd)).2
+            simp only [hb, changedAt]
+            by_cases hc : fo.fmt sb w = f i (fo.fmt sb w)
+            · have hdc : decide (fo.fmt sb w ≠ f i (fo.fmt sb w)) = false := by simp; exact hc
+              rw [if_pos hc, hdc]
+              simp only [Bool.false_eq_true, if_false]
+              unfold encodeVals
+              simp only [hrec, henc, Out.bind_ok, Out.pure_eq]
+              simp [encodeParamVals, encodeParamVal, hs]
+            · have hdc : decide (fo.fmt sb w ≠ f i (fo.fmt sb w)) = true := by simp [hc]
+              rw [if_neg hc, hdc]
+              simp only [if_true, Option.map_some]
+              unfold encodeVals
+              simp only [hrec, encode_changed, Out.bind_ok, Out.pure_eq]
+              simp [encodeParamVals, encodeParamVal_changed]
+          · -- NULL type with a (zero-length) value slot
+            subst h0
+            have hw0 : w = [] := List.eq_nil_of_length_eq_zero hwx
+            subst hw0
+            have hb : boundOf fo t (some []) = ⟨t, none⟩ := by simp [boundOf, hs, hd]
+            simp only [hb, changedAt, Bool.false_eq_true, if_false]
+            unfold encodeVals
+            simp only [hrec]
+            simp [encodeParamVals, encodeParamVal, hs]
+
+/-! ### the type loop of `SetParameters` -/
+
+theorem boundOf_paramType (fo : FloatOps) (t : Nat) (v : Option Bytes) : (boundOf fo t v).paramType = t := by
+  unfold boundOf
+  cases v with
+  | none => rfl
+  | some w =>
+    simp only
+    cases storageBytes t with
+    | none => rfl
+    | some sb =>
+      simp only
+      cases decodeKind t with
+      | none => rfl
+      | some k => cases k <;> rfl
+
+/-- no LONG / LONGLONG parameter carries an unsigned flag that disagrees with the sign of its value read as a signed
+integer – the complement of the input class of the known finding `my-execute-sign-flag` -/
+def SignFlagsCanonical (types : List (Nat × Nat)) (vals : List (Option Bytes)) : Prop :=
+  ∀ (j t fl sb : Nat) (v : Bytes), types[j]? = some (t, fl) → vals[j]? = some (some v) →
+    Generated.Wire.mySignFlagTypes.contains t = true → storageBytes t = some sb →
+    fl = (if toSigned (8 * sb) (leVal v) < 0 then Generated.Wire.mySignedBinaryValue else Generated.Wire.myUnsignedBinaryValue)
+
+theorem signType_cases (t : Nat) (h : Generated.Wire.mySignFlagTypes.contains t = true) :
+    (t = 3 ∧ storageBytes t = some 4 ∧ decodeKind t = some (.int 4)) ∨
+    (t = 8 ∧ storageBytes t = some 8 ∧ decodeKind t = some (.int 8)) := by
+  simp only [Generated.Wire.mySignFlagTypes, List.contains_cons, List.contains_nil, Bool.or_false, Bool.or_eq_true, beq_iff_eq] at h
+  rcases h with rfl | rfl
+  · left; exact ⟨rfl, by decide, by decide⟩
+  · right; exact ⟨rfl, by decide, by decide⟩
+
+theorem changedType_not_sign : Generated.Wire.mySignFlagTypes.contains changedType = false := by decide
+
+theorem parseInt64_fmtInt_toSigned (sb : Nat) (hsb : sb = 4 ∨ sb = 8) (v : Bytes) (hv : v.length = sb) :
+    parseInt 64 (fmtInt (toSigned (8 * sb) (leVal v))) = some (toSigned (8 * sb) (leVal v)) := by
+  have hlt : leVal v < 2 ^ (8 * sb) := by
+    have := leVal_lt v
+    rw [hv, show (256 : Nat) = 2 ^ 8 by rfl, ← Nat.pow_mul] at this
+    exact this
+  have hr := toSigned_range sb (by omega) (leVal v) hlt
+  apply parseInt_fmtInt 64
+  · rcases hsb with rfl | rfl
+    · have : ((2 ^ (8 * 4 - 1) : Nat) : Int) ≤ ((2 ^ (64 - 1) : Nat) : Int) := by decide
+      omega
+    · exact hr.1
+  · rcases hsb with rfl | rfl
+    · have : ((2 ^ (8 * 4 - 1) : Nat) : Int) ≤ ((2 ^ (64 - 1) : Nat) : Int) := by decide
+      omega
+    · exact hr.2
+
+/-- **the type loop of `SetParameters` writes the (type, flag) pairs of the specification**: the type byte of a changed
+parameter becomes BLOB, every other pair is written back as it was read (the recomputed unsigned flag of a LONG /
+LONGLONG parameter equals the received one under `SignFlagsCanonical`) -/
+theorem setTypes_outBound (fo : FloatOps) (f : Nat → Bytes → Bytes) (post : Bytes) (types : List (Nat × Nat))
+    (vals : List (Option Bytes)) (pre : Bytes) (i : Nat) (hl : types.length = vals.length)
+    (hty : ∀ tf ∈ types, tf.1 < 256 ∧ tf.2 < 256)
+    (hw : ∀ (j t fl : Nat) (v : Bytes), types[j]? = some (t, fl) → vals[j]? = some (some v) → WireOk t v)
+    (hsf : SignFlagsCanonical types vals) :
+    setTypes (pre ++ typeBytes types ++ post) (outBound fo f i types vals) pre.length =
+      .ok (typeBytes (outTypes fo f i types vals)) := by
+  induction vals generalizing types pre i with
+  | nil => cases types <;> rfl
+  | cons v vs ih =>
+    match types, hl with
+    | (t, fl) :: ts, hl =>
+      have hl' : ts.length = vs.length := by simpa using hl
+      have hty' : ∀ tf ∈ ts, tf.1 < 256 ∧ tf.2 < 256 := fun tf h => hty tf (List.mem_cons_of_mem _ h)
+      have hw' : ∀ (j t' fl' : Nat) (x : Bytes), ts[j]? = some (t', fl') → vs[j]? = some (some x) → WireOk t' x :=
+        fun j t' fl' x h1 h2 => hw (j + 1) t' fl' x (by simpa using h1) (by simpa using h2)
+      have hsf' : SignFlagsCanonical ts vs :=
+        fun j t' fl' sb x h1 h2 h3 h4 => hsf (j + 1) t' fl' sb x (by simpa using h1) (by simpa using h2) h3 h4
+      have e : pre ++ typeBytes ((t, fl) :: ts) ++ post = (pre ++ [UInt8.ofNat t, UInt8.ofNat fl]) ++ typeBytes ts ++ post := by
+        simp [typeBytes, List.flatMap_cons, List.append_assoc]
+      have e' : pre ++ typeBytes ((t, fl) :: ts) ++ post = pre ++ [UInt8.ofNat t, UInt8.ofNat fl] ++ (typeBytes ts ++ post) := by
+        simp [typeBytes, List.flatMap_cons, List.append_assoc]
+      have hpt : goSlice (pre ++ typeBytes ((t, fl) :: ts) ++ post) pre.length (pre.length + 2) =
+          .ok [UInt8.ofNat t, UInt8.ofNat fl] := by
+        rw [e']
+        exact goSlice_append_mid pre [UInt8.ofNat t, UInt8.ofNat fl] _
+      have hrec := ih ts (pre ++ [UInt8.ofNat t, UInt8.ofNat fl]) (i + 1) hl' hty' hw' hsf'
+      rw [← e] at hrec
+      have hlen : (pre ++ [UInt8.ofNat t, UInt8.ofNat fl]).length = pre.length + 2 := by simp
+      rw [hlen] at hrec
+      simp only [outBound, outTypes]
+      -- the element and whether it is changed
+      have key : ∀ (e : BoundValue) (ot : Nat × Nat),
+          (ot.1 = e.paramType) → (ot.2 = fl) →
+          (Generated.Wire.mySignFlagTypes.contains e.paramType = true → ∀ d, e.data = some d →
+            ∃ x : Int, parseInt 64 d = some x ∧
+              UInt8.ofNat fl = (if x < 0 then UInt8.ofNat Generated.Wire.mySignedBinaryValue else UInt8.ofNat Generated.Wire.myUnsignedBinaryValue)) →
+          setTypes (pre ++ typeBytes ((t, fl) :: ts) ++ post) (e :: outBound fo f (i + 1) ts vs) pre.length =
+            .ok (typeBytes (ot :: outTypes fo f (i + 1) ts vs)) := by
+        intro e ot h1 h2 h3
+        unfold setTypes
+        rw [hpt, Out.bind_ok]
+        simp only [List.drop_succ_cons, List.drop_zero, List.headD_cons]
+        by_cases hc : Generated.Wire.mySignFlagTypes.contains e.paramType = true
+        · rw [if_pos hc]
+          cases hd : e.data with
+          | none =>
+            simp only [Out.pure_eq, Out.bind_ok, hrec]
+            obtain ⟨o1, o2⟩ := ot
+            simp only at h1 h2
+            subst h1; subst h2
+            simp [typeBytes, List.flatMap_cons]
+          | some d =>
+            obtain ⟨x, hx, hfx⟩ := h3 hc d hd
+            simp only [hx, Out.pure_eq, Out.bind_ok, hrec]
+            obtain ⟨o1, o2⟩ := ot
+            simp only at h1 h2
+            subst h1; subst h2
+            rw [← hfx]
+            simp [typeBytes, List.flatMap_cons]
+        · rw [if_neg hc]
+          simp only [Out.pure_eq, Out.bind_ok, hrec]
+          obtain ⟨o1, o2⟩ := ot
+          simp only at h1 h2
+          subst h1; subst h2
+          simp [typeBytes, List.flatMap_cons]
+      cases hd : (boundOf fo t v).data with
+      | none =>
+        have hca : changedAt fo f i t v = false := by simp [changedAt, hd]
+        simp only [hca, Bool.false_eq_true, if_false]
+        exact key (boundOf fo t v) (t, fl) (boundOf_paramType fo t v).symm rfl (fun _ d h => by rw [hd] at h; cases h)
+      | some text =>
+        by_cases hc : text = f i text
+        · have hca : changedAt fo f i t v = false := by
+            simp only [changedAt, hd]
+            simp; exact hc
+          simp only [hca, Bool.false_eq_true, if_false]
+          rw [if_pos hc]
+          refine key (boundOf fo t v) (t, fl) (boundOf_paramType fo t v).symm rfl ?_
+          intro hsign d hdd
+          rw [boundOf_paramType] at hsign
+          rw [hd] at hdd
+          cases hdd
+          cases v with
+          | none => simp [boundOf] at hd
+          | some w =>
+            have hwx : WireOk t w := hw 0 t fl w rfl rfl
+            rcases signType_cases t hsign with ⟨_, hs, hk⟩ | ⟨_, hs, hk⟩
+            · have htext : text = fmtInt (toSigned (8 * 4) (leVal w)) := by
+                have : (boundOf fo t (some w)).data = some (fmtInt (toSigned (8 * 4) (leVal w))) := by simp [boundOf, hs, hk]
+                rw [hd] at this
+                exact Option.some.inj this
+              unfold WireOk at hwx
+              rw [hs] at hwx
+              refine ⟨toSigned (8 * 4) (leVal w), by rw [htext]; exact parseInt64_fmtInt_toSigned 4 (Or.inl rfl) w hwx, ?_⟩
+              rw [hsf 0 t fl 4 w rfl rfl hsign hs]
+              split <;> rfl
+            · have htext : text = fmtInt (toSigned (8 * 8) (leVal w)) := by
+                have : (boundOf fo t (some w)).data = some (fmtInt (toSigned (8 * 8) (leVal w))) := by simp [boundOf, hs, hk]
+                rw [hd] at this
+                exact Option.some.inj this
+              unfold WireOk at hwx
+              rw [hs] at hwx
+              refine ⟨toSigned (8 * 8) (leVal w), by rw [htext]; exact parseInt64_fmtInt_toSigned 8 (Or.inr rfl) w hwx, ?_⟩
+              rw [hsf 0 t fl 8 w rfl rfl hsign hs]
+              split <;> rfl
+        · have hca : changedAt fo f i t v = true := by
+            simp only [changedAt, hd]
+            simp [hc]
+          simp only [hca, if_true]
+          rw [if_neg hc]
+          exact key ⟨changedType, some (f i text)⟩ (changedType, fl) rfl rfl
+            (fun hsign => by rw [changedType_not_sign] at hsign; cases hsign)
+
+/-! ### the whole packet -/
+
+theorem execBitmap_congr (a b : List (Option Bytes)) (hl : a.length = b.length)
+    (h : ∀ j : Nat, (a[j]? = some none) ↔ (b[j]? = some none)) : execBitmap a = execBitmap b := by
+  apply List.ext_getElem?
+  intro k
+  by_cases hk : k < (a.length + 7) / 8
+  · rw [execBitmap_get a k hk, execBitmap_get b k (by rw [← hl]; exact hk)]
+    have : (fun bit => decide (a[k * 8 + bit]? = some none)) = (fun bit => decide (b[k * 8 + bit]? = some none)) := by
+      funext bit
+      exact decide_eq_decide.mpr (h _)
+    rw [this]
+  · rw [List.getElem?_eq_none (by rw [execBitmap_length]; omega),
+      List.getElem?_eq_none (by rw [execBitmap_length, ← hl]; omega)]
+
+theorem outVals_length (fo : FloatOps) (f : Nat → Bytes → Bytes) (i : Nat) (types : List (Nat × Nat))
+    (vals : List (Option Bytes)) (hl : types.length = vals.length) : (outVals fo f i types vals).length = vals.length := by
+  induction vals generalizing types i with
+  | nil => cases types <;> rfl
+  | cons v vs ih =>
+    match types, hl with
+    | tf :: ts, hl => simp [outVals, ih (i + 1) ts (by simpa using hl)]
+
+theorem outTypes_length (fo : FloatOps) (f : Nat → Bytes → Bytes) (i : Nat) (types : List (Nat × Nat))
+    (vals : List (Option Bytes)) (hl : types.length = vals.length) : (outTypes fo f i types vals).length = vals.length := by
+  induction vals generalizing types i with
+  | nil => cases types <;> rfl
+  | cons v vs ih =>
+    match types, hl with
+    | tf :: ts, hl => simp [outTypes, ih (i + 1) ts (by simpa using hl)]
+
+theorem outBound_length (fo : FloatOps) (f : Nat → Bytes → Bytes) (i : Nat) (types : List (Nat × Nat))
+    (vals : List (Option Bytes)) (hl : types.length = vals.length) : (outBound fo f i types vals).length = vals.length := by
+  induction vals generalizing types i with
+  | nil => cases types <;> rfl
+  | cons v vs ih =>
+    match types, hl with
+    | tf :: ts, hl => simp [outBound, ih (i + 1) ts (by simpa using hl)]
+
+/-- NULL parameters stay NULL and no other parameter becomes NULL -/
+theorem outVals_none_iff (fo : FloatOps) (f : Nat → Bytes → Bytes) (i : Nat) (types : List (Nat × Nat))
+    (vals : List (Option Bytes)) (hl : types.length = vals.length) (j : Nat) :
+    (outVals fo f i types vals)[j]? = some none ↔ vals[j]? = some none := by
+  induction vals generalizing types i j with
+  | nil => cases types <;> simp [outVals]
+  | cons v vs ih =>
+    match types, hl with
+    | tf :: ts, hl =>
+      cases j with
+      | succ j => simpa [outVals] using ih (i + 1) ts (by simpa using hl) j
+      | zero =>
+        simp only [outVals, List.getElem?_cons_zero, Option.some.injEq]
+        cases v with
+        | none => simp [changedAt, boundOf]
+        | some w =>
+          by_cases hc : changedAt fo f i tf.1 (some w) = true
+          · rw [if_pos hc]
+            unfold changedAt at hc
+            cases hd : (boundOf fo tf.1 (some w)).data with
+            | none => rw [hd] at hc; cases hc
+            | some text => simp
+          · rw [if_neg hc]
+
+/-- **`GetBindParameters → OnBind → SetParameters` on the specification encoding.** -/
+theorem rewriteExecute_encodeExecute (fo : FloatOps) (f : Nat → Bytes → Bytes) (g : Nat → Bytes → Out Bytes)
+    (hg : ∀ i d, g i d = .ok (f i d)) (h head : Bytes) (types : List (Nat × Nat)) (vals : List (Option Bytes))
+    (hh : head.length = 10) (hl : types.length = vals.length) (hn : 0 < vals.length)
+    (hty : ∀ tf ∈ types, tf.1 < 256 ∧ tf.2 < 256)
+    (hw : ∀ (j t fl : Nat) (v : Bytes), types[j]? = some (t, fl) → vals[j]? = some (some v) → WireOk t v)
+    (hlaw : FloatLaw fo types vals) (hsf : SignFlagsCanonical types vals) :
+    rewriteExecute fo g ⟨h, encodeExecute head types vals⟩ vals.length =
+      .ok (some (setData ⟨h, encodeExecute head types vals⟩
+        (encodeExecute head (outTypes fo f 0 types vals) (outVals fo f 0 types vals)))) := by
+  have hbl := execBitmap_length vals
+  have hob := outBound_length fo f 0 types vals hl
+  have hbm : execBitmap (outVals fo f 0 types vals) = execBitmap vals :=
+    execBitmap_congr _ _ (outVals_length fo f 0 types vals hl) (outVals_none_iff fo f 0 types vals hl)
+  have e0 : encodeExecute head types vals =
+      head ++ execBitmap vals ++ [1] ++ typeBytes types ++ encodeParamVals types vals := rfl
+  have epre : (head ++ execBitmap vals ++ [1]).length = hdrLen + ((vals.length + 7) >>> 3) + 1 := by
+    simp only [List.length_append, hh, hbl, hdrLen_eq, List.length_cons, List.length_nil, Nat.shiftRight_eq_div_pow]
+  have hhead : goSlice (encodeExecute head types vals) 0 (hdrLen + ((vals.length + 7) >>> 3) + 1) =
+      .ok (head ++ execBitmap vals ++ [1]) := by
+    rw [e0, ← epre]
+    have := goSlice_prefix (head ++ execBitmap vals ++ [1]) (typeBytes types ++ encodeParamVals types vals)
+    simpa [List.append_assoc] using this
+  have htypes : setTypes (encodeExecute head types vals) (outBound fo f 0 types vals)
+      (hdrLen + ((vals.length + 7) >>> 3) + 1) = .ok (typeBytes (outTypes fo f 0 types vals)) := by
+    have := setTypes_outBound fo f (encodeParamVals types vals) types vals (head ++ execBitmap vals ++ [1]) 0 hl hty hw hsf
+    rw [epre] at this
+    rw [e0]
+    exact this
+  unfold rewriteExecute
+  rw [getBindParameters_encodeExecute fo head types vals hh hl hn (fun tf htf => (hty tf htf).1) hw, Out.bind_ok]
+  simp only
+  rw [transformVals_boundAll fo f g hg types vals 0, Out.bind_ok]
+  unfold setParameters
+  rw [hob, if_neg (by omega)]
+  simp only
+  rw [hhead, Out.bind_ok, htypes, Out.bind_ok, encodeVals_outBound fo f types vals 0 hl hw hlaw, Out.bind_ok]
+  simp only [Out.pure_eq, Out.bind_ok]
+  have : head ++ execBitmap vals ++ [1] ++ typeBytes (outTypes fo f 0 types vals) ++
+      encodeParamVals (outTypes fo f 0 types vals) (outVals fo f 0 types vals) =
+      encodeExecute head (outTypes fo f 0 types vals) (outVals fo f 0 types vals) := by
+    show _ = head ++ execBitmap (outVals fo f 0 types vals) ++ [1] ++ typeBytes (outTypes fo f 0 types vals) ++ _
+    rw [hbm]
+  rw [this]
+
+theorem outTypes_getElem? (fo : FloatOps) (f : Nat → Bytes → Bytes) (i : Nat) (types : List (Nat × Nat))
+    (vals : List (Option Bytes)) (j t fl : Nat) (v : Option Bytes) (h1 : types[j]? = some (t, fl)) (h2 : vals[j]? = some v) :
+    (outTypes fo f i types vals)[j]? = some (if changedAt fo f (i + j) t v then (changedType, fl) else (t, fl)) := by
+  induction vals generalizing types i j with
+  | nil => simp at h2
+  | cons x xs ih =>
+    match types with
+    | [] => simp at h1
+    | tf :: ts =>
+      cases j with
+      | zero =>
+        simp only [List.getElem?_cons_zero, Option.some.injEq] at h1 h2
+        subst h1; subst h2
+        rfl
+      | succ j =>
+        simp only [outTypes, List.getElem?_cons_succ]
+        rw [ih (i + 1) ts j (by simpa using h1) (by simpa using h2)]
+        have : i + 1 + j = i + (j + 1) := by omega
+        rw [this]
+
+theorem outVals_getElem? (fo : FloatOps) (f : Nat → Bytes → Bytes) (i : Nat) (types : List (Nat × Nat))
+    (vals : List (Option Bytes)) (j t fl : Nat) (v : Option Bytes) (h1 : types[j]? = some (t, fl)) (h2 : vals[j]? = some v) :
+    (outVals fo f i types vals)[j]? =
+      some (if changedAt fo f (i + j) t v then (boundOf fo t v).data.map (f (i + j)) else v) := by
+  induction vals generalizing types i j with
+  | nil => simp at h2
+  | cons x xs ih =>
+    match types with
+    | [] => simp at h1
+    | tf :: ts =>
+      cases j with
+      | zero =>
+        simp only [List.getElem?_cons_zero, Option.some.injEq] at h1 h2
+        subst h1; subst h2
+        rfl
+      | succ j =>
+        simp only [outVals, List.getElem?_cons_succ]
+        rw [ih (i + 1) ts j (by simpa using h1) (by simpa using h2)]
+        have : i + 1 + j = i + (j + 1) := by omega
+        rw [this]
+
 end AcraModel.Wire.My
